@@ -110,7 +110,20 @@ def gen_macros(tmp):
     return g, [f, os.path.join(REPO, "src", "sc.h")]
 
 
-GROUPS = {"Uint128": gen_uint128, "Search": gen_search, "Functions": gen_functions, "Macros": gen_macros}
+def gen_consts(tmp):
+    import subprocess
+    g = Group("Consts")
+    w = os.path.join(HERE, "wrap", "consts.c")
+    exe = os.path.join(tmp, "consts")
+    p = subprocess.run(["gcc", "-w"] + ["-I" + i for i in incs(tmp)] + [w, "-o", exe], stdout=subprocess.PIPE, stderr=subprocess.STDOUT)
+    if p.returncode != 0:
+        raise c2g.Unsupported("consts.c does not compile: " + p.stdout.decode()[-400:])
+    out = subprocess.run([exe], stdout=subprocess.PIPE).stdout.decode()
+    g.add(out, dict(name="consts", lines=out.count("\n")))
+    return g, [os.path.join(REPO, "src", "sc_mpi.h"), os.path.join(REPO, "src", "sc_allgather.h"), os.path.join(REPO, "src", "sc_reduce.h")]
+
+
+GROUPS = {"Consts": gen_consts, "Uint128": gen_uint128, "Search": gen_search, "Functions": gen_functions, "Macros": gen_macros}
 
 # further groups are registered by optional modules tools/c2g/groups_*.py
 import glob, importlib.util
